@@ -132,6 +132,7 @@ class Explorer:
         self.dump_dir = None
         self.draw_fn = None       # concrete RNG script (encoder cross-check only)
         self.opaque_specs = {}    # spec function name -> (fixed parameter names, return type string)
+        self.quant = None
         self.refute_bound = [8, 24]
         self.refute_timeout_ms = 20000
         self.refute_quick_ms = 8000
@@ -305,12 +306,31 @@ class Explorer:
             for k, cond in self._call_spec(P, c.post, bound, extra).items():
                 cond = P.truthy(cond)
                 if cond is False:
-                    # e.g. same_obj(result, input): a modular result is always a fresh object.  Silently dropping
-                    # the path would make every later obligation vacuous.
-                    raise Unsupported(f'post[{k}] of {short} is identically false at a modular call site '
-                                      f'(results are fresh objects: state aliasing by content, not identity)')
+                    # A concretely false callee postcondition prunes the path.  That is normal when the fresh
+                    # result forked on a union type (`p is None` for a result that must be an int), but a contract
+                    # that can never hold (e.g. same_obj(result, input): modular results are fresh objects) would
+                    # make every later obligation vacuous.  Pruning is therefore only accepted if the fresh result
+                    # involved a fork (a union-typed result); otherwise it is reported.
+                    if not self._result_has_union(c, info):
+                        raise Unsupported(f'post[{k}] of {short} is identically false at a modular call site '
+                                          f'(results are fresh objects: state aliasing by content, not identity)')
+                    self.stats['paths_pruned_by_callee_post'] += 1
                 P.assume(cond, fact=True)
         return None if is_init else result
+
+    def _result_has_union(self, c, info):
+        try:
+            rt = self.types.parse_str(c.returns, info.module.name, info.cls)
+        except Exception:
+            return False
+
+        def has(t):
+            if t[0] == 'union':
+                return True
+            if t[0] == 'tuple':
+                return any(has(x) for x in t[1])
+            return False
+        return has(rt)
 
     def field_type(self, ci, fld):
         f = self.index.fields(ci).get(fld)
@@ -359,41 +379,81 @@ class Explorer:
         function of its arguments); it hides a definition the proof does not need.
         """
         fixed, rtype = self.opaque_specs[info.name]
-        bound = getattr(P, 'bound', None)
-        if bound is None or len(args) < len(fixed):
-            return None
-        for a, nm in zip(args, fixed):
-            b = bound.get(nm, MISSING_)
-            if b is MISSING_:
+        if fixed == 'all':
+            # every argument becomes an argument of the uninterpreted function (objects by their scalar fields):
+            # equal arguments give equal results by congruence, nothing else is known
+            zs = []
+
+            def flat(v, depth=0):
+                if v is None:
+                    zs.extend([z3.IntVal(1), z3.IntVal(0)])
+                    return True
+                if isinstance(v, bool):
+                    zs.extend([z3.IntVal(0), z3.IntVal(int(v))])
+                    return True
+                if isinstance(v, int):
+                    zs.extend([z3.IntVal(0), z3.IntVal(v)])
+                    return True
+                if isinstance(v, EnumV):
+                    zs.extend([z3.IntVal(0), z3.IntVal(v.idx) if isinstance(v.idx, int) else v.idx])
+                    return True
+                if is_z3(v) and v.sort() == z3.IntSort():
+                    zs.extend([z3.IntVal(0), v])
+                    return True
+                if is_z3(v) and v.sort() == z3.BoolSort():
+                    zs.extend([z3.IntVal(0), z3.If(v, z3.IntVal(1), z3.IntVal(0))])
+                    return True
+                if isinstance(v, SObj) and v.cls is not None and depth < 3:
+                    for f in self.index.fields(v.cls):
+                        try:
+                            x = P.getattr(v, f)
+                        except Exception:
+                            return False
+                        if isinstance(x, SObj) and x.cls is not None and x.cls.name == 'Flags':
+                            continue
+                        if not flat(x, depth + 1):
+                            return False
+                    return True
+                return False
+            for a in args:
+                if not flat(a):
+                    return None
+        else:
+            bound = getattr(P, 'bound', None)
+            if bound is None or len(args) < len(fixed):
                 return None
-            if a is b:
-                continue
-            if is_z3(a) and is_z3(b) and a.eq(b):
-                continue
-            if not is_z3(a) and not is_z3(b) and not isinstance(a, SObj) and a == b and type(a) is type(b):
-                continue
-            return None
-        rest = args[len(fixed):]
-        zs = []
-        for r in rest:
-            if isinstance(r, EnumV):
-                zs.append(z3.IntVal(r.idx) if isinstance(r.idx, int) else r.idx)
-            elif isinstance(r, bool):
-                zs.append(z3.IntVal(int(r)))
-            elif isinstance(r, int):
-                zs.append(z3.IntVal(r))
-            elif is_z3(r) and r.sort() == z3.IntSort():
-                zs.append(r)
-            elif is_z3(r) and r.sort() == z3.BoolSort():
-                zs.append(z3.If(r, z3.IntVal(1), z3.IntVal(0)))
-            else:
+            for a, nm in zip(args, fixed):
+                b = bound.get(nm, MISSING_)
+                if b is MISSING_:
+                    return None
+                if a is b:
+                    continue
+                if is_z3(a) and is_z3(b) and a.eq(b):
+                    continue
+                if not is_z3(a) and not is_z3(b) and not isinstance(a, SObj) and a == b and type(a) is type(b):
+                    continue
                 return None
+            rest = args[len(fixed):]
+            zs = []
+            for r in rest:
+                if isinstance(r, EnumV):
+                    zs.append(z3.IntVal(r.idx) if isinstance(r.idx, int) else r.idx)
+                elif isinstance(r, bool):
+                    zs.append(z3.IntVal(int(r)))
+                elif isinstance(r, int):
+                    zs.append(z3.IntVal(r))
+                elif is_z3(r) and r.sort() == z3.IntSort():
+                    zs.append(r)
+                elif is_z3(r) and r.sort() == z3.BoolSort():
+                    zs.append(z3.If(r, z3.IntVal(1), z3.IntVal(0)))
+                else:
+                    return None
         rt = self.types.parse_str(rtype, None, None)
         parts = rt[1] if rt[0] == 'tuple' else (rt,)
         outs = []
         for i, t in enumerate(parts):
             sort = z3.IntSort() if t[0] == 'int' else z3.BoolSort()
-            f = z3.Function(f'opq_{info.name}_{i}', *([z3.IntSort()] * len(zs) + [sort]))
+            f = z3.Function(f'opq_{info.name}_{i}_{len(zs)}', *([z3.IntSort()] * len(zs) + [sort]))
             outs.append(f(*zs))
         P.opaque_used = getattr(P, 'opaque_used', 0) + 1
         return tuple(outs) if rt[0] == 'tuple' else outs[0]
@@ -613,7 +673,7 @@ class Explorer:
         else:
             g = as_z3bool(goal)
         formulas = list(facts_pc) + [z3.Not(g)]
-        ax, _ = theory.instantiate(formulas)
+        ax, _ = theory.instantiate(formulas, quant=self.quant)
         s = z3.Solver()
         s.set('timeout', timeout_ms or self.timeout_ms)
         for f in formulas:
@@ -699,6 +759,7 @@ class Explorer:
         self.current = c
         self.merge_light_only = bool(c.opts.get('split_heavy', False))
         self.opaque_specs = {k: (v[0], v[1]) for k, v in c.opts.get('opaque', {}).items()}
+        self.quant = c.opts.get('quant')
         info = self.index.find_function(c.target) if c.target else None
         case = case or {}
         self.queue.clear()
